@@ -7,6 +7,7 @@ package main
 
 import (
 	"strconv"
+	"time"
 
 	"verif/harness/cmd/c40/shardh"
 	"verif/harness/h"
@@ -118,5 +119,5 @@ func (r *runner) Close() {
 }
 
 func main() {
-	h.Main(h.Harness{Gen: gen, NewCase: newCase})
+	h.Main(h.Harness{Gen: gen, NewCase: newCase, OpTimeout: 10 * time.Minute})
 }
